@@ -55,7 +55,7 @@
 //                        matched left to right: equal | radical: bind, or join with earlier binding | actual ANY | same shape
 //                        component-wise | Z vs. integer-like; result = declared result with radicals instantiated (LOGIC for predicates)
 //   [x1 in A1,..] body   Ai sets (may use radicals and earlier parameters); result T(body); declaredArgs = (xi, elements of Ai)
-//   R{p := a | [c |] s}  t0 = T(a), t1 = T(s) under p:t0 must be joinable with t0; then iterate p:t_k until T(s) repeats (max 5 rounds);
+//   R{p := a | [c |] s}  t0 = T(a), t1 = T(s) under p:t0 must be joinable with t0; then iterate p:t_k until T(s) repeats (within 5 rounds, otherwise ill-typed);
 //                        c LOGIC under the final binding; result the last t
 //   I{v | blocks}        blocks left to right: p :in A binds p to elements of A; p := a binds p to T(a); else LOGIC; result SET(T(v))
 //   N :== e -> T(e);  N :== -> SET(BASE N);  N ::= e: e built only from Z, global names, B, x, {..}; T(e) a set -> its elements
@@ -785,14 +785,16 @@ public:
     if (!init.has_value() || !Bind(node.Child(0), *init)) { return std::nullopt; }
     auto current = Term(stepNode);
     if (!current.has_value() || !Compatible(*current, *init)) { return std::nullopt; }
+    bool stable = false;                                         // the type must reach a fix-point
     for (int round = 0; round < 5; ++round) {                    // deduction depth limit
       scope.resize(outer, TypedName{});
       if (!Bind(node.Child(0), *current)) { return std::nullopt; }
       auto next = Term(stepNode);
       if (!next.has_value()) { return std::nullopt; }
-      if (*next == *current) { break; }
+      if (*next == *current) { stable = true; break; }
       current = std::move(next);
     }
+    if (!stable) { return std::nullopt; }
     if (full && !Formula(node.Child(2))) { return std::nullopt; }
     scope.resize(outer, TypedName{});
     return current;
